@@ -21,6 +21,15 @@ Obligations (z3, all symbols are unbounded integers):
       an arbitrary positive integer c via a sentinel literal, and again for the
       literals 1,2,3,4,7,8,64); the returned term is the quotient / remainder;
       a non-literal or non-positive divisor is refused.
+      (Reading of the recorded questions: each accepted question is valid, i.e.
+      closed under forall over every symbol.  The parameters of a family member
+      stand for arbitrary closed expressions - they are rigid; for one conclusion
+      at a time the symbols it mentions are shared (an instantiation of the
+      closure), every other symbol - loop iterators, division temporaries, stride
+      variables, formal parameters of callees - stays universally quantified and
+      is eliminated with z3's Presburger `qe`.  A conclusion that would hold only
+      because the accepted questions contradict its guard is reported as
+      undecided, never as discharged.)
   P   whole pass on a family of small procedures (one shape per statement kind
       and window form; all sizes, offsets, interval ends and indices are
       symbolic parameters).  The *reference* reading (bounds_ghost.Spec, written
@@ -29,7 +38,8 @@ Obligations (z3, all symbols are unbounded integers):
         buffer or window it names, and - through any chain of windows, window
         arguments and callees - lands inside the source buffer (point dims
         contribute the point, interval dims lo + index, consumed in order);
-        a window lies inside what it is taken from; loop: hi - lo >= 0 under the
+        a window that is accessed or passed to a call lies inside the buffer it
+        is (transitively) taken from; loop: hi - lo >= 0 under the
         context *without* the iterator's range; alloc: extents > 0; call: size
         arguments > 0, argument extents > 0, shapes equal, every callee
         assertion after substitution - under the caller's context only.
@@ -53,6 +63,9 @@ T_HELP = FN + "::CheckBounds.check_* [formula]"
 T_DIV = FN + "::CheckBounds.expr_to_smt [div/mod lowering]"
 T_PASS = FN + "::CheckBounds.map_stmts+eff_e+translate_eff [whole pass]"
 T_PROTO = FN + "::CheckBounds.__init__ [protocol]"
+
+K_ALIAS = ("[family] every read / write / reduce through a window created by a window statement stays inside that "
+           "window's own declared extent")
 
 ASSUMED = [
     "C03: the PySMT solver is sound: is_valid(phi) returns True only if phi follows from the assertions on its "
@@ -224,7 +237,7 @@ def main({P}x: f32[{n}, {n}]):
     for i in seq(0, {n}):
         for j in seq(i, {n}):
             x[i, j] = 0.0
-        for j in seq(0, i - 1):
+        for j in seq(0, i):
             x[j, i] = 0.0
 '''),
     _P("if_else", "n:size a:index", '''
@@ -463,10 +476,6 @@ SENT = 1000003
 
 
 def div_cases():
-    from exo.frontend.boundscheck import E
-    from exo.core.LoopIR import T
-    from exo.core.prelude import Sym, SrcInfo
-    src = SrcInfo("c03", 0)
     for op in ("/", "%"):
         for lit in (SENT, 1, 2, 3, 4, 7, 8, 64):
             yield op, lit
@@ -724,12 +733,6 @@ def main(y: f32[8]):
     w = y[0 - 2:4]
     w[2] = 1.0
 ''',
-    "access_outside_window_extent": '''
-@proc
-def main(y: f32[8], o: f32[1]):
-    w = y[0:4]
-    o[0] = w[5]
-''',
     "callee_through_alias_by_name": CALLEES + '''
 @proc
 def main(y: f32[8]):
@@ -791,7 +794,14 @@ def analyse_program(prog, tmo, values=None):
         voc = z3_names(it.cond, z3_names(it.guard, set(voc0)))
         base = close_over(raw, voc, cache) + list(spec.assume)
         r, m, dt = check_unsat(base + [it.guard, z3.Not(it.cond)], tmo)
-        out["items"].append((label, it, _st(r), dt, m))
+        st = _st(r)
+        if st == "discharged":
+            # not vacuously: the accepted questions and the guard must be satisfiable together
+            rc, _, dtc = check_unsat(base + [it.guard], tmo)
+            dt += dtc
+            if rc != z3.sat:
+                st = "vacuous"
+        out["items"].append((label, it, st, dt, m))
         out["bases"][label] = base
     return out
 
@@ -859,15 +869,11 @@ def analyse_closed(prog, vals, it_label):
     for it in spec.items:
         seen[it.label] = seen.get(it.label, 0) + 1
         label = it.label if seen[it.label] == 1 else f"{it.label} [#{seen[it.label]}]"
-        if _strip(label) == _strip(it_label):
+        if label == it_label:
             r, _, _ = check_unsat(list(spec.assume) + [it.guard, z3.Not(it.cond)], 10000)
             if r == z3.sat:
                 return True
     return False
-
-
-def _strip(label):
-    return label
 
 
 REPLAY = '''#!/venv/bin/python
@@ -967,6 +973,8 @@ def run(tier="quick", seed=0):
     except Exception as e:
         res["undecided"].append(f"{T_DIV}: engine crashed: " + "".join(traceback.format_exception(e))[-800:])
 
+    alias_items = []
+    budget = dict(prog={}, all=0)
     for prog in FAMILY:
         try:
             an = analyse_program(prog, tmo)
@@ -984,20 +992,54 @@ def run(tier="quick", seed=0):
             res["undecided"].append(f"{T_PASS}: [{prog.name}] canary failed: recorded hypotheses are {an['canary']}")
             continue
         for (label, it, st, dt, m) in an["items"]:
+            if it.kind.endswith("-declared-extent-alias"):
+                # aggregated into one obligation (K_ALIAS), see below
+                alias_items.append((prog, label, st, dt, an))
+                continue
             if st == "refuted":
-                vals, text = find_witness(prog, label, an)
+                # closed witnesses through the real front end are costly: at most two searches
+                # per family member and sixteen per run (the replay script searches again)
+                vals = None
+                if budget["prog"].get(prog.name, 0) < 2 and budget["all"] < 16:
+                    budget["prog"][prog.name] = budget["prog"].get(prog.name, 0) + 1
+                    budget["all"] += 1
+                    vals, text = find_witness(prog, label, an, limit=6)
                 record(T_PASS, f"[{prog.name}] {label}", st, dt, what=f"[{prog.name}] {label}",
                        replay_args=("program", (prog.name, label)), confirmed=vals is not None)
+            elif st == "vacuous":
+                res["undecided"].append(f"{T_PASS}: [{prog.name}] {label}: holds only vacuously (the recorded questions "
+                                        f"contradict the guard): the family member tests nothing here")
             else:
                 record(T_PASS, f"[{prog.name}] {label}", st, dt, what=f"[{prog.name}] {label}")
         nq = len(an["slv"].valid_queries())
         try:
             bad = protocol(prog, nq)
-            record(T_PROTO, f"[{prog.name}] a negative answer to any of the {nq and 'n'} questions makes __init__ raise TypeError",
+            record(T_PROTO, f"[{prog.name}] a negative answer to any single question makes __init__ raise TypeError",
                    "discharged" if not bad else "refuted", what=f"[{prog.name}] negative answers {bad} ignored",
                    witness=list(REJECT_SRC))
         except Exception as e:
             res["undecided"].append(f"{T_PROTO}: [{prog.name}] crashed: {type(e).__name__}: {e}")
+
+    # one obligation for "inside the window's own declared extent" (all family members)
+    if alias_items:
+        sts = [x[2] for x in alias_items]
+        dt = sum(x[3] for x in alias_items)
+        if all(x == "discharged" for x in sts):
+            record(T_PASS, K_ALIAS, "discharged", dt)
+        elif any(x == "refuted" for x in sts):
+            conf, first = False, None
+            for prog, label, st, _, an in alias_items:
+                if st != "refuted":
+                    continue
+                first = first or (prog.name, label)
+                vals, text = find_witness(prog, label, an, limit=4)
+                if vals is not None:
+                    conf, first = True, (prog.name, label)
+                    break
+            record(T_PASS, K_ALIAS, "refuted", dt, what=K_ALIAS + f" (first failing family member: {first[0]}: {first[1]})",
+                   replay_args=("program", first), confirmed=conf)
+        else:
+            record(T_PASS, K_ALIAS, "unknown", dt)
 
     # sampled: unsafe closed procedures through the real, unstubbed pipeline
     for k, (rejected, msg) in rejects.items():
